@@ -80,13 +80,12 @@ impl<T: Debug> OrderedWorkStealQueue<T> {
 
     /// Push an element to the global queue.
     pub fn push_with_priority(&self, priority: c_longlong, item: T) {
+        //add count first, so that the count never lags behind the items
+        _ = self.len.fetch_add(1, Ordering::Release);
         self.shared_queue
             .get_or_insert_with(priority, Injector::new)
             .value()
             .push(item);
-        //add count
-        self.len
-            .store(self.len().saturating_add(1), Ordering::Release);
     }
 
     /// Pop an element from the global queue.
@@ -100,8 +99,7 @@ impl<T: Debug> OrderedWorkStealQueue<T> {
                 match entry.value().steal() {
                     Steal::Success(item) => {
                         // Decrement the count.
-                        self.len
-                            .store(self.len().saturating_sub(1), Ordering::Release);
+                        _ = self.len.fetch_sub(1, Ordering::Release);
                         return Some(item);
                     }
                     Steal::Retry => {}
